@@ -198,7 +198,12 @@ class Dataset(AbstractDataset, dict, OpMixin, GetSetDelAttrMixin):
         val = copy.copy(val)  
         val._axes = copy.deepcopy(val.axes)
 
-        # Check dimensions
+        # Check dimensions before modifying the dataset
+        for newaxis in val.axes:
+            if newaxis.name in self.dims and not newaxis == self.axes[newaxis.name]:
+                raise ValueError("axes values do not match, align data first.\
+                        \nDataset: {}, \nGot: {}".format(self.axes[newaxis.name], newaxis))
+
         # make sure axes match those of the dataset
         for i, newaxis in enumerate(val.axes):
 
